@@ -7,26 +7,39 @@ namespace Pyrtma.Mgr
 /-- "is the copy of input frame `j`" -/
 def cp (j : Nat) : Body → Bool := fun b => b == .data j
 
-/-- the log of `s'` extends the log of `s` by events none of which is a copy of frame `j` -/
-def QE (j : Nat) (s s' : State) : Prop := ∃ ext, s'.out = s.out ++ ext ∧ dataSends (cp j) ext = []
+/-- a body predicate that is false on the frames the manager originates outside failure handling (the ones `Tag` does
+    not already cover): acknowledgements, CLIENT_INFO, the three statistics messages -/
+structure Ctl (B : Body → Bool) : Prop where
+  ack : B .ack = false
+  info : ∀ a b c d e f, B (.info a b c d e f) = false
+  timing : ∀ a b, B (.timing a b) = false
+  traffic : ∀ a b c d, B (.traffic a b c d) = false
+  active : ∀ a b c, B (.active a b c) = false
 
-theorem QE.refl (j : Nat) (s : State) : QE j s s := ⟨[], by simp, rfl⟩
+theorem ctl_cp (j : Nat) : Ctl (cp j) := ⟨rfl, fun _ _ _ _ _ _ => rfl, fun _ _ => rfl, fun _ _ _ _ => rfl, fun _ _ _ => rfl⟩
+theorem ctl_guardNotice (cfg : Cfg) : Ctl (guardNotice cfg) :=
+  ⟨rfl, fun _ _ _ _ _ _ => rfl, fun _ _ => rfl, fun _ _ _ _ => rfl, fun _ _ _ => rfl⟩
 
-theorem QE.trans {j : Nat} {a b c : State} (h1 : QE j a b) (h2 : QE j b c) : QE j a c := by
+/-- the log of `s'` extends the log of `s` by events none of which is a `B`-frame -/
+def QE (B : Body → Bool) (s s' : State) : Prop := ∃ ext, s'.out = s.out ++ ext ∧ dataSends B ext = []
+
+theorem QE.refl (B : Body → Bool) (s : State) : QE B s s := ⟨[], by simp, rfl⟩
+
+theorem QE.trans {B : Body → Bool} {a b c : State} (h1 : QE B a b) (h2 : QE B b c) : QE B a c := by
   obtain ⟨e1, o1, q1⟩ := h1
   obtain ⟨e2, o2, q2⟩ := h2
   exact ⟨e1 ++ e2, by rw [o2, o1, List.append_assoc], by rw [dataSends_append, q1, q2]; rfl⟩
 
-theorem QE_of {j : Nat} {s s' : State} (hp : Pres s s') (hq : Quiet (cp j) s s') : QE j s s' := by
+theorem QE_of {B : Body → Bool} {s s' : State} (hp : Pres s s') (hq : Quiet B s s') : QE B s s' := by
   obtain ⟨ext, ho⟩ := hp.out
   refine ⟨ext, ho, ?_⟩
   unfold Quiet at hq
   rw [ho, dataSends_append] at hq
   exact List.append_right_eq_self.mp hq
 
-theorem QE_same {j : Nat} {s s' : State} (ho : s'.out = s.out) : QE j s s' := ⟨[], by simp [ho], rfl⟩
+theorem QE_same {B : Body → Bool} {s s' : State} (ho : s'.out = s.out) : QE B s s' := ⟨[], by simp [ho], rfl⟩
 
-theorem QE_emit (j : Nat) (s : State) (e : Ev) (he : ∀ u c f, e ≠ .send u c f) : QE j s (s.emit e) := by
+theorem QE_emit (B : Body → Bool) (s : State) (e : Ev) (he : ∀ u c f, e ≠ .send u c f) : QE B s (s.emit e) := by
   refine ⟨[e], rfl, ?_⟩
   unfold dataSends
   cases e <;> simp_all
@@ -34,107 +47,108 @@ theorem QE_emit (j : Nat) (s : State) (e : Ev) (he : ∀ u c f, e ≠ .send u c 
 theorem tag_cp (cfg : Cfg) (j : Nat) : Tag cfg (cp j) := tag_data cfg j
 
 section top
-variable (cfg : Cfg) (j : Nat)
+variable (cfg : Cfg) {B : Body → Bool} (hB : Tag cfg B) (hc : Ctl B)
+include hB hc
 
-theorem fwdTop_QE (s : State) (g : Frame) (hg : cp j g.body = false) : QE j s (fwdTop cfg s g) :=
-  let h := fwdTop_ok cfg (tag_cp cfg j) s g hg
+theorem fwdTop_QE (s : State) (g : Frame) (hg : B g.body = false) : QE B s (fwdTop cfg s g) :=
+  let h := fwdTop_ok cfg (hB) s g hg
   QE_of h.1 h.2
 
-theorem logAt_QE (lvl : Nat) (s : State) : QE j s (logAt cfg (fwdTop cfg) lvl s) := by
+theorem logAt_QE (lvl : Nat) (s : State) : QE B s (logAt cfg (fwdTop cfg) lvl s) := by
   unfold logAt; split
-  · exact fwdTop_QE cfg j s _ rfl
-  · exact QE.refl j s
+  · exact fwdTop_QE cfg hB hc s _ (hB.2.1 lvl)
+  · exact QE.refl B s
 
-theorem trySend_QE (s : State) (u : Nat) (f : Frame) (hf : cp j f.body = false) : QE j s (trySend cfg (fwdTop cfg) s u f) := by
-  have h := trySend_ok cfg (tag_cp cfg j) (fwdTop_ok cfg (tag_cp cfg j)) s u f
+theorem trySend_QE (s : State) (u : Nat) (f : Frame) (hf : B f.body = false) : QE B s (trySend cfg (fwdTop cfg) s u f) := by
+  have h := trySend_ok cfg (hB) (fwdTop_ok cfg (hB)) s u f
   refine QE_of h.1 ?_
   unfold Quiet
   rw [h.2, hf]; simp
 
-theorem removeModule_QE (s : State) (u : Nat) : QE j s (removeModule cfg (fwdTop cfg) s u) := by
+theorem removeModule_QE (s : State) (u : Nat) : QE B s (removeModule cfg (fwdTop cfg) s u) := by
   unfold removeModule
   cases s.find u with
-  | none => exact QE.refl j s
+  | none => exact QE.refl B s
   | some m =>
     dsimp only
-    have h1 : QE j s (removePrep s u m) := by
+    have h1 : QE B s (removePrep s u m) := by
       unfold removePrep; dsimp only
       split
       · exact QE_same rfl
       · refine ⟨[.close u], rfl, rfl⟩
-    exact ((h1.trans (logAt_QE cfg j 10 _)).trans (fwdTop_QE cfg j _ _ rfl)).trans (QE_same rfl)
+    exact ((h1.trans (logAt_QE cfg hB hc 10 _)).trans (fwdTop_QE cfg hB hc _ _ (by simp [closedFrame, mgrFrame, hB.1]))).trans (QE_same rfl)
 
-theorem toLoggers_QE (f : Frame) (hf : cp j f.body = false) : ∀ (ls : List Nat) (s : State), QE j s (toLoggers cfg f ls s)
-  | [], s => QE.refl j s
+theorem toLoggers_QE (f : Frame) (hf : B f.body = false) : ∀ (ls : List Nat) (s : State), QE B s (toLoggers cfg f ls s)
+  | [], s => QE.refl B s
   | u :: rest, s => by
     unfold toLoggers
     refine QE.trans ?_ (toLoggers_QE f hf rest _)
     unfold loggerOne
     cases s.find u with
-    | none => exact QE.refl j s
-    | some _ => exact trySend_QE cfg j s u f hf
+    | none => exact QE.refl B s
+    | some _ => exact trySend_QE cfg hB hc s u f hf
 
-theorem sendAck_QE (s : State) (u : Nat) : QE j s (sendAck cfg s u) := by
+theorem sendAck_QE (s : State) (u : Nat) : QE B s (sendAck cfg s u) := by
   unfold sendAck
   cases s.find u with
-  | none => exact QE.refl j s
-  | some m => exact (trySend_QE cfg j s u _ rfl).trans (toLoggers_QE cfg j _ rfl _ _)
+  | none => exact QE.refl B s
+  | some m => exact (trySend_QE cfg hB hc s u _ hc.ack).trans (toLoggers_QE cfg hB hc _ hc.ack _ _)
 
-theorem infoOf_QE (s : State) (m : Module) : QE j s (infoOf cfg s m) := by
-  unfold infoOf; exact (logAt_QE cfg j 10 s).trans (fwdTop_QE cfg j _ _ rfl)
+theorem infoOf_QE (s : State) (m : Module) : QE B s (infoOf cfg s m) := by
+  unfold infoOf; exact (logAt_QE cfg hB hc 10 s).trans (fwdTop_QE cfg hB hc _ _ (hc.info _ _ _ _ _ _))
 
-theorem sendInfo_QE (s : State) (u : Nat) : QE j s (sendInfo cfg s u) := by
+theorem sendInfo_QE (s : State) (u : Nat) : QE B s (sendInfo cfg s u) := by
   unfold sendInfo
   cases s.find u with
-  | none => exact QE.refl j s
-  | some m => exact infoOf_QE cfg j s m
+  | none => exact QE.refl B s
+  | some m => exact infoOf_QE cfg hB hc s m
 
-theorem addSub_QE (s : State) (u : Nat) (t : Int) : QE j s (addSub cfg s u t) := by
-  have hc : QE j s (addSubCore cfg s u t) := by
+theorem addSub_QE (s : State) (u : Nat) (t : Int) : QE B s (addSub cfg s u t) := by
+  have hcore : QE B s (addSubCore cfg s u t) := by
     unfold addSubCore State.setSubs; dsimp only
     split
     · exact QE_same rfl
     · split <;> exact QE_same rfl
   unfold addSub; split
-  · exact hc.trans (logAt_QE cfg j 10 _)
-  · exact hc
+  · exact hcore.trans (logAt_QE cfg hB hc 10 _)
+  · exact hcore
 
-theorem removeSub_QE (s : State) (u : Nat) (t : Int) : QE j s (removeSub cfg s u t) := by
-  have hc : QE j s (removeSubCore cfg s u t) := by
+theorem removeSub_QE (s : State) (u : Nat) (t : Int) : QE B s (removeSub cfg s u t) := by
+  have hcore : QE B s (removeSubCore cfg s u t) := by
     unfold removeSubCore State.setSubs; dsimp only
     split
     · exact QE_same rfl
     · split <;> exact QE_same rfl
   unfold removeSub; split
-  · exact hc.trans (logAt_QE cfg j 10 _)
-  · exact hc
+  · exact hcore.trans (logAt_QE cfg hB hc 10 _)
+  · exact hcore
 
-theorem clashLoop_QE (me : Module) : ∀ (os : List Module) (s : State), QE j s (clashLoop cfg me os s).1
-  | [], s => QE.refl j s
+theorem clashLoop_QE (me : Module) : ∀ (os : List Module) (s : State), QE B s (clashLoop cfg me os s).1
+  | [], s => QE.refl B s
   | o :: rest, s => by
     unfold clashLoop
     split
-    · exact QE.refl j s
+    · exact QE.refl B s
     · refine QE.trans ?_ (clashLoop_QE me rest _)
       split
-      · exact QE.refl j s
-      · exact logAt_QE cfg j 10 s
+      · exact QE.refl B s
+      · exact logAt_QE cfg hB hc 10 s
 
-theorem connect_QE (s : State) (u : Nat) (hd : Hdr) : QE j s (connectModule cfg s u hd).1 := by
+theorem connect_QE (s : State) (u : Nat) (hd : Hdr) : QE B s (connectModule cfg s u hd).1 := by
   unfold connectModule
   dsimp only
-  have refuse : ∀ s0 : State, QE j s s0 → QE j s (removeModule cfg (fwdTop cfg) (logAt cfg (fwdTop cfg) 40 s0) u) :=
-    fun s0 h0 => (h0.trans (logAt_QE cfg j 40 _)).trans (removeModule_QE cfg j _ u)
+  have refuse : ∀ s0 : State, QE B s s0 → QE B s (removeModule cfg (fwdTop cfg) (logAt cfg (fwdTop cfg) 40 s0) u) :=
+    fun s0 h0 => (h0.trans (logAt_QE cfg hB hc 40 _)).trans (removeModule_QE cfg hB hc _ u)
   split
-  · exact QE.refl j s
+  · exact QE.refl B s
   · split
     · exact refuse _ (QE_same rfl)
     · rename_i nm _
-      have h1 : QE j s (s.upd u (setAll cfg s.buf hd nm)) := QE_same rfl
+      have h1 : QE B s (s.upd u (setAll cfg s.buf hd nm)) := QE_same rfl
       split
       · split
         · exact refuse _ h1
-        · have hl := clashLoop_QE cfg j (setAll cfg s.buf hd nm (lookupMod s u))
+        · have hl := clashLoop_QE cfg hB hc (setAll cfg s.buf hd nm (lookupMod s u))
             ((s.upd u (setAll cfg s.buf hd nm)).mods.filter (·.uid != u)) (s.upd u (setAll cfg s.buf hd nm))
           generalize clashLoop cfg (setAll cfg s.buf hd nm (lookupMod s u))
             ((s.upd u (setAll cfg s.buf hd nm)).mods.filter (·.uid != u)) (s.upd u (setAll cfg s.buf hd nm)) = r at hl
@@ -148,45 +162,43 @@ theorem connect_QE (s : State) (u : Nat) (hd : Hdr) : QE j s (connectModule cfg 
         · exact h1.trans (QE_same rfl)
 
 /-- **processing a frame writes copies of that frame only** -/
-theorem process_QE (s : State) (u : Nat) (hd : Hdr) (hj : j ≠ hd.k) : QE j s (processMessage cfg s u hd) := by
+theorem process_QE (s : State) (u : Nat) (hd : Hdr) (hj : B (.data hd.k) = false) : QE B s (processMessage cfg s u hd) := by
   unfold processMessage
   dsimp only
   split
-  · have hc := connect_QE cfg j s u hd
-    generalize connectModule cfg s u hd = r at hc
+  · have hcn := connect_QE cfg hB hc s u hd
+    generalize connectModule cfg s u hd = r at hcn
     obtain ⟨s1, okb⟩ := r
-    dsimp only at hc ⊢
+    dsimp only at hcn ⊢
     split
-    · exact ((hc.trans (sendAck_QE cfg j s1 u)).trans (infoOf_QE cfg j _ _)).trans (logAt_QE cfg j 20 _)
-    · exact hc
+    · exact ((hcn.trans (sendAck_QE cfg hB hc s1 u)).trans (infoOf_QE cfg hB hc _ _)).trans (logAt_QE cfg hB hc 20 _)
+    · exact hcn
   · split
-    · exact (removeModule_QE cfg j s u).trans (logAt_QE cfg j 20 _)
+    · exact (removeModule_QE cfg hB hc s u).trans (logAt_QE cfg hB hc 20 _)
     · split
-      · exact (addSub_QE cfg j s u _).trans (sendAck_QE cfg j _ u)
+      · exact (addSub_QE cfg hB hc s u _).trans (sendAck_QE cfg hB hc _ u)
       · split
-        · exact (removeSub_QE cfg j s u _).trans (sendAck_QE cfg j _ u)
+        · exact (removeSub_QE cfg hB hc s u _).trans (sendAck_QE cfg hB hc _ u)
         · split
           · split
-            · exact (logAt_QE cfg j 40 s).trans (removeModule_QE cfg j _ u)
-            · exact ((QE_same (s' := s.upd u _) rfl).trans (logAt_QE cfg j 20 _)).trans (infoOf_QE cfg j _ _)
+            · exact (logAt_QE cfg hB hc 40 s).trans (removeModule_QE cfg hB hc _ u)
+            · exact ((QE_same (s' := s.upd u _) rfl).trans (logAt_QE cfg hB hc 20 _)).trans (infoOf_QE cfg hB hc _ _)
           · split
-            · exact (QE_same (s' := s.upd u _) rfl).trans (sendInfo_QE cfg j _ u)
-            · refine (logAt_QE cfg j 10 s).trans (fwdTop_QE cfg j _ _ ?_)
-              show (Body.data hd.k == Body.data j) = false
-              simp; exact fun e => hj e.symm
+            · exact (QE_same (s' := s.upd u _) rfl).trans (sendInfo_QE cfg hB hc _ u)
+            · exact (logAt_QE cfg hB hc 10 s).trans (fwdTop_QE cfg hB hc _ _ hj)
 
-theorem readOne_QE (s : State) (r : Read) (hj : j ≠ r.h.k) : QE j s (readOne cfg s r) := by
+theorem readOne_QE (s : State) (r : Read) (hj : B (.data r.h.k) = false) : QE B s (readOne cfg s r) := by
   unfold readOne
   split
-  · exact QE.refl j s
+  · exact QE.refl B s
   · cases s.find r.uid with
-    | none => exact QE.refl j s
+    | none => exact QE.refl B s
     | some m =>
       dsimp only
-      have h1 : QE j s (s.emit (.rd r.uid)) := QE_emit j s _ (by intro _ _ _ h; cases h)
-      have hb : ∀ b, QE j s { (s.emit (.rd r.uid)) with buf := b } := fun b => h1.trans (QE_same rfl)
-      have rm : ∀ (s' : State), QE j s s' → ∀ lvl, QE j s (logAt cfg (fwdTop cfg) lvl (removeModule cfg (fwdTop cfg) s' r.uid)) :=
-        fun s' h' lvl => (h'.trans (removeModule_QE cfg j s' r.uid)).trans (logAt_QE cfg j lvl _)
+      have h1 : QE B s (s.emit (.rd r.uid)) := QE_emit B s _ (by intro _ _ _ h; cases h)
+      have hb : ∀ b, QE B s { (s.emit (.rd r.uid)) with buf := b } := fun b => h1.trans (QE_same rfl)
+      have rm : ∀ (s' : State), QE B s s' → ∀ lvl, QE B s (logAt cfg (fwdTop cfg) lvl (removeModule cfg (fwdTop cfg) s' r.uid)) :=
+        fun s' h' lvl => (h'.trans (removeModule_QE cfg hB hc s' r.uid)).trans (logAt_QE cfg hB hc lvl _)
       split
       · exact rm _ h1 40
       · split
@@ -198,48 +210,48 @@ theorem readOne_QE (s : State) (r : Read) (hj : j ≠ r.h.k) : QE j s (readOne c
               · exact rm _ h1 40
               · split
                 · exact rm _ (hb _) 30
-                · exact (hb _).trans (process_QE cfg j _ _ _ hj)
-            · exact h1.trans (process_QE cfg j _ _ _ hj)
+                · exact (hb _).trans (process_QE cfg hB hc _ _ _ hj)
+            · exact h1.trans (process_QE cfg hB hc _ _ _ hj)
 
-theorem foldl_fwd_QE : ∀ (fs : List Frame) (s : State), (∀ f ∈ fs, cp j f.body = false) → QE j s (fs.foldl (fwdTop cfg) s)
-  | [], s, _ => QE.refl j s
+theorem foldl_fwd_QE : ∀ (fs : List Frame) (s : State), (∀ f ∈ fs, B f.body = false) → QE B s (fs.foldl (fwdTop cfg) s)
+  | [], s, _ => QE.refl B s
   | f :: rest, s, h => by
     simp only [List.foldl_cons]
-    exact (fwdTop_QE cfg j s f (h f (by simp))).trans (foldl_fwd_QE rest _ (fun g hg => h g (by simp [hg])))
+    exact (fwdTop_QE cfg hB hc s f (h f (by simp))).trans (foldl_fwd_QE rest _ (fun g hg => h g (by simp [hg])))
 
-theorem infoAll_QE : ∀ (ms : List Module) (s : State), QE j s (infoAll cfg ms s)
-  | [], s => QE.refl j s
-  | m :: rest, s => by unfold infoAll; exact (infoOf_QE cfg j s _).trans (infoAll_QE rest _)
+theorem infoAll_QE : ∀ (ms : List Module) (s : State), QE B s (infoAll cfg ms s)
+  | [], s => QE.refl B s
+  | m :: rest, s => by unfold infoAll; exact (infoOf_QE cfg hB hc s _).trans (infoAll_QE rest _)
 
-theorem accept_QE (s : State) : QE j s (acceptStep cfg s) := by
+theorem accept_QE (s : State) : QE B s (acceptStep cfg s) := by
   unfold acceptStep
-  exact (logAt_QE cfg j 20 s).trans (QE_same rfl)
+  exact (logAt_QE cfg hB hc 20 s).trans (QE_same rfl)
 
-theorem ticks_QE (s : State) : QE j s (ticks cfg s) := by
+theorem ticks_QE (s : State) : QE B s (ticks cfg s) := by
   unfold ticks
-  have h1 : QE j s (if cfg.timing && s.now - s.tTiming > 900 then { sendTiming cfg s with tTiming := s.now } else s) := by
+  have h1 : QE B s (if cfg.timing && s.now - s.tTiming > 900 then { sendTiming cfg s with tTiming := s.now } else s) := by
     split
     · unfold sendTiming
-      exact ((QE_same (s' := { s with counts := [], inTraffic := true }) rfl).trans (fwdTop_QE cfg j _ _ rfl)).trans (QE_same rfl)
-    · exact QE.refl j s
+      exact ((QE_same (s' := { s with counts := [], inTraffic := true }) rfl).trans (fwdTop_QE cfg hB hc _ _ (hc.timing _ _))).trans (QE_same rfl)
+    · exact QE.refl B s
   generalize (if cfg.timing && s.now - s.tTiming > 900 then { sendTiming cfg s with tTiming := s.now } else s) = s1 at h1
   dsimp only
-  have h2 : QE j s1 (if s1.now - s1.tTraffic > 1000 then sendTraffic cfg s1 else s1) := by
+  have h2 : QE B s1 (if s1.now - s1.tTraffic > 1000 then sendTraffic cfg s1 else s1) := by
     split
     · unfold sendTraffic
-      refine (((QE_same (s' := { s1 with inTraffic := true }) rfl).trans (logAt_QE cfg j 10 _)).trans
-        (foldl_fwd_QE cfg j _ _ ?_)).trans (QE_same rfl)
+      refine (((QE_same (s' := { s1 with inTraffic := true }) rfl).trans (logAt_QE cfg hB hc 10 _)).trans
+        (foldl_fwd_QE cfg hB hc _ _ ?_)).trans (QE_same rfl)
       intro f hf
       unfold trafficFrames at hf
       obtain ⟨p, _, rfl⟩ := List.mem_map.mp hf
-      rfl
-    · exact QE.refl j s1
+      exact hc.traffic _ _ _ _
+    · exact QE.refl B s1
   generalize (if s1.now - s1.tTraffic > 1000 then sendTraffic cfg s1 else s1) = s2 at h2
   refine (h1.trans h2).trans ?_
   split
   · unfold sendActive
-    exact (((logAt_QE cfg j 10 s2).trans (infoAll_QE cfg j _ _)).trans (fwdTop_QE cfg j _ _ rfl)).trans (QE_same rfl)
-  · exact QE.refl j s2
+    exact (((logAt_QE cfg hB hc 10 s2).trans (infoAll_QE cfg hB hc _ _)).trans (fwdTop_QE cfg hB hc _ _ (hc.active _ _ _))).trans (QE_same rfl)
+  · exact QE.refl B s2
 
 end top
 
@@ -291,7 +303,7 @@ theorem ordered_mono {s : State} {b b' : Nat} (h : Ordered s b) (hb : b ≤ b') 
   fun u => ⟨(h u).1, fun k hk => Nat.lt_of_lt_of_le ((h u).2 k hk) hb⟩
 
 /-- an operation that writes no copy of any frame keeps the invariant -/
-theorem ordered_quiet {s s' : State} {b : Nat} (h : Ordered s b) (hq : ∀ j, QE j s s') : Ordered s' b := by
+theorem ordered_quiet {s s' : State} {b : Nat} (h : Ordered s b) (hq : ∀ j, QE (cp j) s s') : Ordered s' b := by
   intro u
   obtain ⟨ext, ho, _⟩ := hq 0
   have hnone : dataKs ext u = [] := by
@@ -307,7 +319,7 @@ theorem ordered_quiet {s s' : State} {b : Nat} (h : Ordered s b) (hq : ∀ j, QE
   exact h u
 
 /-- an operation that writes copies of frame `k` only, `k` at or above the bound, keeps the invariant with bound `k+1` -/
-theorem ordered_step {s s' : State} {b k : Nat} (h : Ordered s b) (hk : b ≤ k) (hq : ∀ j, j ≠ k → QE j s s') :
+theorem ordered_step {s s' : State} {b k : Nat} (h : Ordered s b) (hk : b ≤ k) (hq : ∀ j, j ≠ k → QE (cp j) s s') :
     Ordered s' (k + 1) := by
   intro u
   obtain ⟨ext, ho, _⟩ := hq (k + 1) (by omega)
@@ -343,7 +355,7 @@ theorem readAll_ordered (cfg : Cfg) : ∀ (rs : List Read) (s : State) (b : Nat)
   | [], _, _, h, _ => h
   | r :: rest, s, b, h, hi => by
     unfold readAll
-    exact readAll_ordered cfg rest _ _ (ordered_step h hi.1 (fun j hj => readOne_QE cfg j s r hj)) hi.2
+    exact readAll_ordered cfg rest _ _ (ordered_step h hi.1 (fun j hj => readOne_QE cfg (tag_cp cfg j) (ctl_cp j) s r (by show (Body.data r.h.k == Body.data j) = false; simp; exact fun e => hj e.symm))) hi.2
 
 theorem IncFrom_filter (p : Read → Bool) : ∀ (rs : List Read) (b : Nat), IncFrom b rs → IncFrom b (rs.filter p)
   | [], _, _ => trivial
@@ -398,14 +410,14 @@ theorem step_ordered (cfg : Cfg) (s : State) (r : Round) (b : Nat) (h : Ordered 
   split
   · exact ordered_mono h hge
   · dsimp only
-    refine ordered_quiet ?_ (fun j => ticks_QE cfg j _)
+    refine ordered_quiet ?_ (fun j => ticks_QE cfg (tag_cp cfg j) (ctl_cp j) _)
     unfold ioStep
     have h0 : Ordered (envStep s r) b := ordered_quiet h (fun j => QE_same rfl)
     split
     · dsimp only
       have ha : Ordered (if r.accept then acceptStep cfg (envStep s r) else envStep s r) b := by
         split
-        · exact ordered_quiet h0 (fun j => accept_QE cfg j _)
+        · exact ordered_quiet h0 (fun j => accept_QE cfg (tag_cp cfg j) (ctl_cp j) _)
         · exact h0
       have hw : ∀ w, Ordered { (if r.accept then acceptStep cfg (envStep s r) else envStep s r) with wlist := w } b :=
         fun w => ordered_quiet ha (fun j => QE_same rfl)
@@ -417,7 +429,7 @@ theorem run_ordered (cfg : Cfg) (rs : List Round) (hi : IncRounds 0 rs) : Ordere
   unfold run
   have h0 : Ordered (init cfg) 0 := by
     unfold init
-    refine ordered_quiet ?_ (fun j => logAt_QE cfg j 20 _)
+    refine ordered_quiet ?_ (fun j => logAt_QE cfg (tag_cp cfg j) (ctl_cp j) 20 _)
     intro u; simp [dataKs]
   have : ∀ (rs : List Round) (s : State) (b : Nat), Ordered s b → IncRounds b rs →
       Ordered (rs.foldl (step cfg) s) (roundsBound b rs) := by
@@ -426,5 +438,51 @@ theorem run_ordered (cfg : Cfg) (rs : List Round) (hi : IncRounds 0 rs) : Ordere
     | nil => intro s b h _; exact h
     | cons r rest ih => intro s b h hi; exact ih _ _ (step_ordered cfg s r b h hi.1) hi.2
   exact this rs _ 0 h0 hi
+
+/-! ## frames of a kind nothing ever sends -/
+
+/-- a body predicate that is false on every frame the manager originates outside failure handling and on every data
+    frame is never satisfied by anything written in any history -/
+theorem run_quiet (cfg : Cfg) {B : Body → Bool} (hB : Tag cfg B) (hc : Ctl B) (hd : ∀ k, B (.data k) = false)
+    (rs : List Round) : dataSends B (run cfg rs).out = [] := by
+  have hstep : ∀ (s : State) (r : Round), QE B s (step cfg s r) := by
+    intro s r
+    unfold step
+    split
+    · exact QE.refl B s
+    · dsimp only
+      refine QE.trans ?_ (ticks_QE cfg hB hc _)
+      unfold ioStep
+      have h0 : QE B s (envStep s r) := QE_same rfl
+      split
+      · dsimp only
+        have ha : QE B s (if r.accept then acceptStep cfg (envStep s r) else envStep s r) := by
+          split
+          · exact h0.trans (accept_QE cfg hB hc _)
+          · exact h0
+        have hw : ∀ w, QE B s { (if r.accept then acceptStep cfg (envStep s r) else envStep s r) with wlist := w } :=
+          fun w => ha.trans (QE_same rfl)
+        have hr : ∀ (rds : List Read) (s0 : State), QE B s0 (readAll cfg rds s0) := by
+          intro rds
+          induction rds with
+          | nil => intro s0; exact QE.refl B s0
+          | cons rd rest ih => intro s0; unfold readAll; exact (readOne_QE cfg hB hc s0 rd (hd _)).trans (ih _)
+        exact (hw _).trans (hr _ _)
+      · exact h0
+  have hall : ∀ (rs : List Round) (s : State), QE B s (rs.foldl (step cfg) s) := by
+    intro rs
+    induction rs with
+    | nil => intro s; exact QE.refl B s
+    | cons r rest ih => intro s; exact (hstep s r).trans (ih _)
+  have hlog : ∀ s0 : State, s0.out = [] → dataSends B (logAt cfg (fwdTop cfg) 20 s0).out = [] := by
+    intro s0 he
+    obtain ⟨ext, ho, hq⟩ := logAt_QE cfg hB hc 20 s0
+    rw [ho, he]; simpa using hq
+  have h0 : dataSends B (init cfg).out = [] := by
+    unfold init
+    exact hlog _ rfl
+  obtain ⟨ext, ho, hq⟩ := hall rs (init cfg)
+  unfold run
+  rw [ho, dataSends_append, h0, hq]; rfl
 
 end Pyrtma.Mgr
